@@ -47,9 +47,9 @@ func runC11(c *Ctx) bool {
 			c.Recycle()
 		}
 	}
-	reps := c.Pick(4, 12)
+	reps := c.Pick(4, 60)
 	if c.Race {
-		reps = c.Pick(2, 6)
+		reps = c.Pick(2, 20)
 	}
 	for rep := 0; rep < reps; rep++ {
 		// (1) failing blocks at each stage
